@@ -23,7 +23,7 @@ func init() {
 			{Name: "recv-deadline", Mode: "enum", Bound: b, Reset: kit.ResetGlobals, Body: func() { recvDeadline(false) },
 				NeedCounters: []string{"recv-timeout-exact", "recv-no-deadline-waits", "recv-immediate-ok", "recv-unsupported-op"}},
 			{Name: "recv-deadline-context", Mode: "enum", Bound: b, Reset: kit.ResetGlobals, Body: func() { recvDeadline(true) },
-				NeedCounters: []string{"recv-timeout-exact"}},
+				NeedCounters: []string{"recv-timeout-exact", "ctx-deadline-inherited"}},
 			{Name: "send-deadline", Mode: "enum", Bound: b, Reset: kit.ResetGlobals, Body: func() { sendModes("deadline") },
 				NeedCounters: []string{"send-timeout-exact", "send-no-deadline-waits", "send-immediate-ok"}},
 			{Name: "send-best-effort", Mode: "enum", Bound: b, Reset: kit.ResetGlobals, Body: func() { sendModes("besteffort") },
@@ -61,10 +61,19 @@ func recvDeadline(useCtx bool) {
 		kit.Count("recv-unsupported-op")
 		return
 	}
+	inherited := false
 	if useCtx {
-		// options set on the socket are inherited by contexts opened afterwards where the pattern does so;
-		// here the deadline is set on the context itself
+		// the deadline is set on the context itself, or (free choice) on the socket before the
+		// context is opened: options set on the socket are inherited by contexts opened afterwards
+		// where the pattern does so - the new context then has the socket's value, otherwise the
+		// default (no deadline); nothing else, and it behaves as it reports
 		x.PrepRecvCtxNeedsSocket()
+		viaSocket := kit.ChooseFree(2) == 1
+		if viaSocket {
+			if err := x.S.SetOption(mangos.OptionRecvDeadline, d); err != nil {
+				return
+			}
+		}
 		c, err := x.S.OpenContext()
 		if err != nil {
 			kit.Failf("setup:ctx:"+k.Name, "OpenContext: %s", kit.ErrName(err))
@@ -73,8 +82,22 @@ func recvDeadline(useCtx bool) {
 			recv: func() (string, error) { b, err := c.Recv(); return string(b), err },
 			send: func(b string) error { return c.Send([]byte(b)) }}
 		x.Ctx = c
+		if viaSocket {
+			v, err := c.GetOption(mangos.OptionRecvDeadline)
+			g, ok := v.(time.Duration)
+			if err != nil || !ok || (g != d && g != 0) {
+				kit.Failf("ctx-deadline-neither-inherited-nor-default:"+k.Name, "%s: the socket's RecvDeadline is %v; a context opened afterwards reports %v (%s): neither the socket's value nor the default", k.Name, d, v, kit.ErrName(err))
+			}
+			if g == d {
+				kit.Count("ctx-deadline-inherited")
+			}
+			d = g
+			inherited = true
+		}
 	}
-	if err := ep.set(mangos.OptionRecvDeadline, d); err != nil {
+	if inherited {
+		// nothing to set: the context is used as it came
+	} else if err := ep.set(mangos.OptionRecvDeadline, d); err != nil {
 		if err == mangos.ErrBadOption {
 			kit.Count("recv-deadline-unsupported")
 			return
